@@ -1438,6 +1438,15 @@ class Compiler(compiler.Compiler):
                                                   type_name,
                                                   module_name)
 
+                # A SIZE constraint applied to a referenced type, in
+                # a type assignment or on the element of a SEQUENCE
+                # OF as well as on a member.
+                if 'size' in type_descriptor:
+                    compiled = self.copy(compiled)
+                    compiled.set_size_range(
+                        *self.get_size_range(type_descriptor,
+                                             constraint_module_name))
+
         if 'tag' in type_descriptor:
             compiled = self.copy(compiled)
             tag = type_descriptor['tag']
